@@ -858,3 +858,116 @@ def seqtype(F, R):
                 R.find('C05.seq-type', f, 'width', 'sequence tags compared with different types (%s vs %s) in %s' % (lt, rt, f.expr(i)), where=f.at(i))
         if hit:
             R.seen(f); R.anchor('seq-compare:' + backend_of(f))
+
+@rule('seqproto')
+def seqproto(F, R):
+    """C05.seq-protocol (back / back11): the correlation sequence of the deferred queue.
+    * an event deferred now is stamped with the NEXT sequence (m_cur_seq + 1), so that it is not re-offered within the step that
+      deferred it but is as soon as a new sequence starts;
+    * do_handle_deferred(new_seq): starts a new sequence by one increment only when asked, re-offers the front entries whose stamp
+      EQUALS the current sequence (an ordering comparison breaks at wrap-around of the char counter), and after a handled entry
+      re-stamps all pending entries with m_cur_seq + 1 before recursing with new_seq = true;
+    * the post-step call sites start a new sequence exactly when the step was handled (bit test of HANDLED_TRUE); start-up passes true."""
+    from rules_order import dependency_closure
+    from rules_struct import cond_facts
+    def plus_one_of_cur(f, i):
+        """expression i is (cast of) m_cur_seq + 1"""
+        n = f.nodes[i] if i else None
+        while n and n['k'] in ('icast', 'cast', 'paren', 'tmp'): n = f.nodes[n['e']]
+        if not (n and n['k'] == 'bin' and n['op'] == '+'): return False
+        a, b = n['lhs'], n['rhs']
+        def is_cur(x):
+            m = f.nodes[x]
+            while m and m['k'] in ('icast', 'cast', 'paren'): m = f.nodes[m['e']]
+            return bool(m) and m['k'] == 'mem' and m['n'] == 'm_cur_seq'
+        return (is_cur(a) and const_of(f, b) == 1) or (is_cur(b) and const_of(f, a) == 1)
+    for f in F.funcs:
+        be = backend_of(f)
+        if be not in ('back', 'back11') or not f.blocks: continue
+        # ---- stamping of new entries
+        for i, q, op in queue_ops(f):
+            if q != 'DEFQ' or op != 'push_back': continue
+            n = f.nodes[i]
+            stamp = None
+            for d in dependency_closure(f, i):
+                m = f.nodes[d]
+                if m and m['k'] == 'call' and m.get('n') == 'make_pair' and len(m.get('args', [])) == 2: stamp = m['args'][1]
+            if stamp is None: continue
+            R.seen(f); R.anchor('defer-stamp:' + be)
+            ok = plus_one_of_cur(f, stamp)
+            R.ob('C05.seq-protocol', ok, {'func': f.q, 'stamp': f.expr(stamp)})
+            if not ok: R.find('C05.seq-protocol', f, 'stamp', 'a newly deferred event must be stamped with the next sequence (m_cur_seq + 1); found %s: it would be re-offered within the step that deferred it, or never' % f.expr(stamp), where=f.at(i))
+        # ---- the re-offer loop
+        if f.n == 'do_handle_deferred' and f.cls == 'handle_defer_helper' and any(nn.get('n') == 'pop_front' for i, nn in f.calls()):
+            R.seen(f); R.anchor('defer-loop:' + be)
+            why = []
+            incs = [i for i, n in enumerate(f.nodes) if n and n['k'] == 'un' and n['op'] in ('++', 'pre++', 'post++') and f.base_member(n['e']) == 'm_cur_seq']
+            incs += [i for i, n in enumerate(f.nodes) if n and n['k'] == 'asg' and f.base_member(n['lhs']) == 'm_cur_seq']
+            if len(incs) != 1: why.append('%d writes of m_cur_seq (one increment expected)' % len(incs))
+            else:
+                # executed exactly on the paths where the parameter new_seq is true
+                for p in f.paths(edge_bound=1):
+                    if f.aborts(p): continue
+                    did = incs[0] in f.path_nodes(p)
+                    fact = None
+                    for bi, b in enumerate(p[:-1]):
+                        for c, t in cond_facts(f, f.bmap[b], p[bi + 1]):
+                            if c['k'] == 'ref' and c.get('dk') == 'param' and c['n'] == 'new_seq': fact = t if fact is None else fact
+                    if fact is not None and did != fact: why.append('the sequence is %s although new_seq is %s' % ('advanced' if did else 'not advanced', fact)); break
+            cmps = []
+            for i, n in enumerate(f.nodes):
+                if n and n['k'] == 'bin' and n['op'] in ('==', '!=', '<', '>', '<=', '>='):
+                    names = {f.nodes[d].get('n') for d in dependency_closure(f, i) if f.nodes[d] and f.nodes[d]['k'] in ('ref', 'mem')}
+                    if 'second' in names and ('cur_seq' in names or 'm_cur_seq' in names): cmps.append((i, n['op']))
+            if not cmps: why.append('no comparison of an entry\'s stamp with the current sequence')
+            for i, op in cmps:
+                if op not in ('==', '!='): why.append('stamp compared with %s (%s): must be an equality test, the char counter wraps' % (op, f.expr(i)))
+            # re-stamp after a handled entry, then recurse with a new sequence
+            rest = [n for i, n in f.calls() if n.get('n') == 'for_each']
+            okr = False
+            for n in rest:
+                for a in n.get('args', []):
+                    for d in dependency_closure(f, a):
+                        m = f.nodes[d]
+                        if m and m['k'] == 'ctor' and m.get('pc') == 'set_sequence' and m.get('args') and plus_one_of_cur(f, m['args'][0]): okr = True
+            # the same written with a closure: [seq = m_cur_seq](entry& d) { d.second = seq + 1; }
+            for m in f.nodes:
+                if not (m and m['k'] == 'lambda'): continue
+                for g in F.funcs_of_lambda(m['lck']):
+                    if g.n != 'operator()': continue
+                    for x in g.nodes:
+                        if not (x and x['k'] == 'asg' and (g.nodes[x['lhs']] or {}).get('n') == 'second'): continue
+                        r = g.nodes[x['rhs']]
+                        while r and r['k'] in ('icast', 'cast', 'paren'): r = g.nodes[r['e']]
+                        if not (r and r['k'] == 'bin' and r['op'] == '+'): continue
+                        a, b = g.nodes[r['lhs']], g.nodes[r['rhs']]
+                        while a and a['k'] in ('icast', 'cast'): a = g.nodes[a['e']]
+                        while b and b['k'] in ('icast', 'cast'): b = g.nodes[b['e']]
+                        var = a if (b and b['k'] == 'lit' and b.get('v') == 1) else b if (a and a['k'] == 'lit' and a.get('v') == 1) else None
+                        if not (var and var['k'] == 'ref'): continue
+                        # the captured local is a copy of the current sequence
+                        for dn in f.nodes:
+                            if dn and dn['k'] == 'decl':
+                                for v in dn['vars']:
+                                    if v['n'] == var['n'] and v.get('hasinit'):
+                                        iv = f.nodes[v['init']]
+                                        while iv and iv['k'] in ('icast', 'cast'): iv = f.nodes[iv['e']]
+                                        if iv and iv['k'] == 'mem' and iv['n'] == 'm_cur_seq': okr = True
+            if not okr: why.append('pending entries are not re-stamped with m_cur_seq + 1 after a handled entry')
+            rec = [n for i, n in f.calls() if n.get('n') == 'do_handle_deferred']
+            if not (len(rec) == 1 and rec[0].get('args') and const_of(f, rec[0]['args'][0]) == 1): why.append('the retry after a handled entry does not start a new sequence (do_handle_deferred(true))')
+            R.ob('C05.seq-protocol', not why, {'func': f.q})
+            if why: R.find('C05.seq-protocol', f, 'loop', '; '.join(why))
+        # ---- call sites: new sequence exactly when the step was handled
+        if f.cls == 'state_machine' and f.n != 'do_handle_deferred':
+            for i, n in f.calls():
+                if n.get('n') != 'do_handle_deferred' or n.get('pc') != 'handle_defer_helper' or not n.get('args'): continue
+                a = n['args'][0]
+                R.seen(f); R.anchor('defer-site:' + be)
+                c = const_of(f, a)
+                names = [f.nodes[d] for d in dependency_closure(f, a) if f.nodes[d]]
+                bit = any(m['k'] in ('bin', 'call') and m.get('op') == '&' for m in names) and any(m['k'] == 'ref' and m.get('n') == 'HANDLED_TRUE' for m in names)
+                cmpx = any(m['k'] == 'bin' and m.get('op') in ('==', '!=') for m in names)
+                ok = c == 1 or (bit and not cmpx)
+                R.ob('C05.seq-protocol', ok, {'func': f.q, 'new_seq_argument': f.expr(a)})
+                if not ok: R.find('C05.seq-protocol', f, 'site', 'the deferred queue is re-offered with new_seq = %s; required: true at start-up, else the bit test HANDLED_TRUE & handled (a guard reject or a deferral must not start a new sequence)' % f.expr(a), where=f.at(i))
